@@ -202,6 +202,15 @@ def tasks(tier, seed):
                         cases.append({'kind': 'pvv', 'pin': s2 if where == 'pin' else pin,
                                       'pan': s2 if where == 'pan' else pan, 'idx': (pos + pl) % 10,
                                       'key': PVV_KEYS[1]})
+    # card numbers / PINs that start with a digit string written in the library's own source
+    from vf import literals
+    for d in literals.harvest()['digits']:
+        for nl in (13, 16, 19):
+            cases.append({'kind': 'pvv', 'pin': digits(4 + len(d) % 9, seed, 2), 'pan': (d + digits(nl, seed, 7))[:nl],
+                          'idx': len(d) % 10, 'key': PVV_KEYS[1]})
+        if len(d) <= 12:
+            cases.append({'kind': 'pvv', 'pin': (d + digits(12, seed, 3))[:max(4, len(d))], 'pan': digits(16, seed, 6),
+                          'idx': 1, 'key': PVV_KEYS[1], 'via': 'iso4'})
     for key in PVV_KEYS[3:]:
         for pl in (4, 5, 12):
             cases.append({'kind': 'pvv', 'pin': digits(pl, seed, 0), 'pan': digits(16, seed, 9), 'idx': 1, 'key': key})
